@@ -970,11 +970,16 @@ class DateTime(datetime.datetime, Date):
         if day_of_week < WeekDay.MONDAY or day_of_week > WeekDay.SUNDAY:
             raise ValueError("Invalid day of week")
 
-        dt = self if keep_time else self.start_of("day")
+        start = self if keep_time else self.start_of("day")
 
-        dt = dt.subtract(days=1)
+        # Always step from the start: when the previous day does not exist
+        # (a zone that skipped a whole day) subtracting one day at a time
+        # from the previous result would land on the same day forever.
+        days = 1
+        dt = start.subtract(days=days)
         while dt.day_of_week != day_of_week:
-            dt = dt.subtract(days=1)
+            days += 1
+            dt = start.subtract(days=days)
 
         return dt
 
